@@ -3,6 +3,7 @@ SD = "kappadata/caching/shared_dict_dataset.py"
 CD = "kappadata/caching/cached_dataset.py"
 
 MUTANTS = [
+    ("batched access tests a snapshot of the keys that never learns", [(SD, "    def dispose(self):\n        self.shared_dict.clear()", "    def _cached_getitems(self, indices):\n        cached_keys = set(self.shared_dict.keys())\n        samples = []\n        for idx in indices:\n            if idx in cached_keys:\n                sample = self.shared_dict[idx]\n            else:\n                sample = self.dataset[idx]\n                self.shared_dict[idx] = sample\n            samples.append(sample)\n        return samples\n\n    def dispose(self):\n        self.shared_dict.clear()")], "G8.other-loads"),
     ("load not stored", [(SD, "            sample = self.dataset[idx]\n            self.shared_dict[idx] = sample\n", "            sample = self.dataset[idx]\n")], "G8.lookup-or-load"),
     ("unconditional load", [(SD, "        if idx not in self.shared_dict:\n            sample = self.dataset[idx]\n            self.shared_dict[idx] = sample\n        else:\n            sample = self.shared_dict[idx]\n", "        sample = self.dataset[idx]\n        self.shared_dict[idx] = sample\n")], "G8.lookup-or-load"),
     ("stored under a wrapped key", [(SD, "            self.shared_dict[idx] = sample\n", "            self.shared_dict[idx % 1024] = sample\n")], "G8.lookup-or-load"),
@@ -23,6 +24,8 @@ MUTANTS = [
 ]
 
 BENIGN = [
+    ("batched access with a snapshot that learns every loaded key", [(SD, "    def dispose(self):\n        self.shared_dict.clear()", "    def _cached_getitems(self, indices):\n        cached_keys = set(self.shared_dict.keys())\n        samples = []\n        for idx in indices:\n            if idx in cached_keys:\n                sample = self.shared_dict[idx]\n            else:\n                sample = self.dataset[idx]\n                self.shared_dict[idx] = sample\n                cached_keys.add(idx)\n            samples.append(sample)\n        return samples\n\n    def dispose(self):\n        self.shared_dict.clear()")]),
+    ("batched access through the per-index lookup", [(SD, "    def dispose(self):\n        self.shared_dict.clear()", "    def _cached_getitems(self, indices):\n        return [self._cached_getitem(idx) for idx in indices]\n\n    def dispose(self):\n        self.shared_dict.clear()")]),
     ("early return on hit", [(SD, "        if idx not in self.shared_dict:\n            sample = self.dataset[idx]\n            self.shared_dict[idx] = sample\n        else:\n            sample = self.shared_dict[idx]\n        return sample\n", "        if idx in self.shared_dict:\n            return self.shared_dict[idx]\n        sample = self.dataset[idx]\n        self.shared_dict[idx] = sample\n        return sample\n")]),
     ("store inline", [(SD, "            sample = self.dataset[idx]\n            self.shared_dict[idx] = sample\n", "            self.shared_dict[idx] = sample = self.dataset[idx]\n")]),
     ("transform via conditional expression", [(CD, "        if self.transform is not None:\n            sample = self.transform(sample)\n        return sample\n", "        if self.transform is not None:\n            return self.transform(sample)\n        return sample\n")]),
